@@ -85,6 +85,8 @@ func runC18(c *Ctx, d c18Desc) {
 		exts = append(exts, fmt.Sprintf("ext%d", i))
 	}
 	snapshot := d.Order != "nosnapshot"
+	// the emulator API's Init carries no expiry for the initial credentials (zero value)
+	initExpiry := time.Time{}
 	w, err := NewWorld(vh.Config{TimeoutMs: 10000, Extensions: exts, Snapshot: snapshot, AwsKey: "AKIA-INIT", AwsSecret: "secret-init", AwsSession: "session-init"})
 	if err != nil {
 		c.Inconclusive("harness: " + err.Error())
@@ -122,12 +124,18 @@ func runC18(c *Ctx, d c18Desc) {
 	}
 	c.Check(token != "" && rtp.Env["AWS_CONTAINER_CREDENTIALS_FULL_URI"] == "http://"+w.E.Addr+"/2021-04-23/credentials", "uri_and_token_in_environment", "C18/uri-token-env", "credentials URI / token missing or not pointing at the API address", rtp.Env["AWS_CONTAINER_CREDENTIALS_FULL_URI"])
 
+	// restored credentials may well expire EARLIER than the ones they replace (R2 < R1)
+	expiryOf := map[string]time.Time{
+		"AKIA-INIT": initExpiry,
+		"AKIA-R1":   time.Now().Add(3 * time.Hour).UTC().Truncate(time.Second),
+		"AKIA-R2":   time.Now().Add(15 * time.Minute).UTC().Truncate(time.Second),
+	}
 	restore := func(key string, hookMs int64) (chan error, time.Time, int64) {
 		ch := make(chan error, 1)
 		t := time.Now()
 		seq := w.E.Log.Add(vh.Event{Src: "drv", Kind: "call", Op: "restore"})
 		go func() {
-			_, err := w.E.Srv.Restore(&interop.Restore{AwsKey: key, AwsSecret: "secret-" + key, AwsSession: "session-" + key, CredentialsExpiry: time.Now().Add(time.Hour), RestoreHookTimeoutMs: hookMs})
+			_, err := w.E.Srv.Restore(&interop.Restore{AwsKey: key, AwsSecret: "secret-" + key, AwsSession: "session-" + key, CredentialsExpiry: expiryOf[key], RestoreHookTimeoutMs: hookMs})
 			w.E.Log.Add(vh.Event{Src: "drv", Kind: "ret", Op: "restore", Extra: map[string]string{"err": fmt.Sprint(err)}})
 			ch <- err
 		}()
@@ -135,9 +143,15 @@ func runC18(c *Ctx, d c18Desc) {
 	}
 	checkCreds := func(wantKey, label string) {
 		r := credsGet(probe, token)
-		var got struct{ AccessKeyId, SecretAccessKey, Token string }
+		var got struct {
+			AccessKeyId, SecretAccessKey, Token string
+			Expiration                         time.Time
+		}
 		json.Unmarshal(r.Body, &got)
 		c.Check(r.Status == 200 && got.AccessKeyId == wantKey, "credentials_most_recent", "C18/credentials-stale/"+label, fmt.Sprintf("credentials endpoint returned key %q, expected %q (%s)", got.AccessKeyId, wantKey, label), nil)
+		if r.Status == 200 && got.AccessKeyId == wantKey {
+			c.Check(got.Expiration.Equal(expiryOf[wantKey]), "credentials_most_recent", "C18/credentials-expiry/"+label, fmt.Sprintf("credentials endpoint returned expiry %v, the %s credentials expire %v", got.Expiration, wantKey, expiryOf[wantKey]), nil)
+		}
 	}
 	park := func() *vh.Async {
 		a := vh.Go(func() *vh.Resp { return rt.RestoreNext() })
